@@ -292,8 +292,26 @@ def sink_real_backpressure():
     return runs
 
 
+def sink_id_wrap():
+    """the automatic identifier counter passes 65535 while several sends are outstanding: identifiers 65534, 65535, 1, 2
+    (0 is skipped, none is handed out twice), every send goes through and is acknowledged"""
+    runs = []
+    for ver in (3, 5):
+        for role in ("server", "client"):
+            for start in (65532, 65533, 65534):
+                for kinds in (("q1", "q1", "q1", "q1"), ("q2", "q1", "q1", "q2")) + ((("sub", "q1", "unsub", "q1"),) if role == "client" else ()):
+                    cfg = dict(role=role, ver=ver, max_send=4, gate_pub=1)
+                    hs = {"rm": 4} if ver == 5 else None
+                    cmds = [handshake(role, ver, connack=hs, connect=hs), {"c": "next_id", "n": start}, {"c": "mark", "k": "expect_all_ok"}]
+                    for i, k in enumerate(kinds, 1):
+                        cmds += [{"c": "send", "s": i, "k": k, "id": 0}, {"c": "poll", "s": i}]
+                    cmds += [{"c": "ack", "n": 4}, {"c": "settle"}]
+                    runs.append(dict(cfg=cfg, cmds=cmds, src="id_wrap"))
+    return runs
+
+
 def sink_random(tier, rnd):
-    runs = sink_local_failures() + sink_negative_acks() + sink_dropped_senders() + sink_real_backpressure()
+    runs = sink_local_failures() + sink_negative_acks() + sink_dropped_senders() + sink_real_backpressure() + sink_id_wrap()
     for _ in range(300 if tier == "quick" else 4000):
         ver = rnd.choice([3, 5])
         role = rnd.choice(["server", "client"])
